@@ -17,7 +17,8 @@ class DocTable:
     @staticmethod
     def _parse_mul(path):
         try:
-            text = open(path).read()
+            with open(path) as fh:
+                text = fh.read()
         except OSError as e:
             raise HarnessError('cannot read %s: %s' % (path, e))
         m = re.search(r'Multiplication rules\n=+\n(.*?)\n\S[^\n]*\n=+\n', text, re.S)
@@ -48,7 +49,8 @@ class DocTable:
     @staticmethod
     def _parse_classes(path):
         try:
-            text = open(path).read()
+            with open(path) as fh:
+                text = fh.read()
         except OSError as e:
             raise HarnessError('cannot read %s: %s' % (path, e))
         out = {}
